@@ -35,6 +35,8 @@ def dep_eval(name, co, x):
         return np.log(co[0] + co[1] * np.sqrt(x / 9.81))
     if name == "sat":
         return co[0] + co[1] * x / (1 + x)
+    if name == "cos":
+        return co[0] + co[1] * np.cos(x - co[2])          # defined (and positive for co[0] > co[1] > 0) on the whole real line
     if name == "const":
         return co[0]          # a scalar whatever the shape of x (a dependence function may ignore x)
     raise KeyError(name)
@@ -62,6 +64,10 @@ def dep_callable(name, co):
         def sat(x, a=co[0], b=co[1]):
             return a + b * x / (1 + x)
         return sat
+    if name == "cos":
+        def cosdep(x, a=co[0], b=co[1], c=co[2]):
+            return a + b * np.cos(x - c)
+        return cosdep
     if name == "const":
         def const(x, a=co[0]):
             return a
